@@ -126,6 +126,8 @@ def sym_groups(tier, seed):
         for m in (range(2, 9) if not quick else rng.sample(range(2, 9), 2)):
             calls.append("rr::run_detqr_real<%s,%d>(%du);" % (rng.choice(["float", "double"]), m, ds))
         groups.append({"key": "%s/pred-qr" % isa, "header": "reduce_real.h", "isa": isa, "opt": "-O2", "calls": calls})
+        if isa != "scalar":
+            groups.append(hstep_group(isa, ds))
     return groups
 
 def real_groups(tier, seed):
@@ -165,6 +167,92 @@ def real_groups(tier, seed):
             groups.append({"key": "%s/detrat" % isa, "header": "reduce_real.h", "isa": isa, "opt": "-O2", "calls": calls})
     return groups
 
+
+# ---- horizontal helpers of extintrin.h (X2-lite): normalised body text + shuffle immediates ------------------------
+HFUNCS = ['_mm_reverse_ps', '_mm_reverse_pd', '_mm256_reverse_pd', '_mm_hmax_ps', '_mm_hmax_pd', '_mm256_hmax_ps', '_mm256_hmax_pd', '_mm_hmin_ps', '_mm_hmin_pd', '_mm256_hmin_ps', '_mm256_hmin_pd', '_mm_sum_ps', '_mm_sum_pd', '_mm_prod_ps', '_mm_prod_pd', '_mm256_sum_ps', '_mm256_sum_pd', '_mm256_prod_ps', '_mm256_prod_pd']
+# sha1[:12] of the normalised body text and the immediates the model (Model/Horizontal.lean) and the theorems
+# (hmax_ps_correct ... hprod256_pd_tree) were written for
+HEXPECT = {
+    '_mm_reverse_ps': ('c53a58af73e4', [27]),
+    '_mm_reverse_pd': ('7baaae9a8632', [1]),
+    '_mm256_reverse_pd': ('7dd3671c19f6', [1, 5]),
+    '_mm_hmax_ps': ('b53b570659d9', [1]),
+    '_mm_hmax_pd': ('1c5063cbee7c', []),
+    '_mm256_hmax_ps': ('8909aa8d341e', [1, 1, 1]),
+    '_mm256_hmax_pd': ('01445fcc01b5', [1]),
+    '_mm_hmin_ps': ('f68fe487d97b', [1]),
+    '_mm_hmin_pd': ('39d983e9fa6d', []),
+    '_mm256_hmin_ps': ('4c7c11a8fd09', [1, 1, 1]),
+    '_mm256_hmin_pd': ('42963aa7b55e', [1]),
+    '_mm_sum_ps': ('758d1d6b12be', [245]),
+    '_mm_sum_pd': ('1613d4b68f42', []),
+    '_mm_prod_ps': ('d52857a4ca6d', [245]),
+    '_mm_prod_pd': ('f7a5b7274ab5', []),
+    '_mm256_sum_ps': ('8d271ed972eb', [1, 1]),
+    '_mm256_sum_pd': ('c9aa6a235ddb', [5, 1]),
+    '_mm256_prod_ps': ('2546cbd360bc', [1]),
+    '_mm256_prod_pd': ('c1576bd842ac', [5, 1]),
+}
+
+def extract_helpers():
+    """body text of each straight-line helper (last definition in the file), comments and white space removed, the
+    shuffle immediates replaced by '#' and returned separately"""
+    import hashlib
+    src = open(os.path.join(core.REPO, "Fastor/simd_vector/extintrin.h")).read()
+    out = {}
+    for fn in HFUNCS:
+        ms = list(re.finditer(r"FASTOR_INLINE\s+\w+\s+%s\(([^)]*)\)\s*\{(.*?)\n\}" % re.escape(fn), src, re.S))
+        if not ms:
+            out[fn] = {"sha": "missing", "imms": []}; continue
+        body = ms[-1].group(2)
+        body = re.sub(r"//[^\n]*", "", body)
+        body = re.sub(r"/\*.*?\*/", "", body, flags=re.S)
+        body = re.sub(r"\s+", "", body)
+        imms = []
+        def sh(m):
+            z, y, x, w = (int(g) for g in m.groups()); imms.append(z * 64 + y * 16 + x * 4 + w); return "#"
+        body = re.sub(r"_MM_SHUFFLE\((\d),(\d),(\d),(\d)\)", sh, body)
+        def lit(m):
+            imms.append(int(m.group(1), 0)); return ",#)"
+        body = re.sub(r",(0x[0-9a-fA-F]+|\d+)\)", lit, body)
+        out[fn] = {"sha": hashlib.sha1(body.encode()).hexdigest()[:12], "imms": imms}
+    return out
+
+# helper -> (source functions it is built from, how the model's immediate list is assembled from theirs)
+HSTEPS = {
+    "hmax_ps": (["_mm_hmax_ps", "_mm_reverse_ps"], lambda h: h["_mm_reverse_ps"] + h["_mm_hmax_ps"]),
+    "hmin_ps": (["_mm_hmin_ps", "_mm_reverse_ps"], lambda h: h["_mm_reverse_ps"] + h["_mm_hmin_ps"]),
+    "hmax_pd": (["_mm_hmax_pd", "_mm_reverse_pd"], lambda h: h["_mm_reverse_pd"]),
+    "hmin_pd": (["_mm_hmin_pd", "_mm_reverse_pd"], lambda h: h["_mm_reverse_pd"]),
+    "sum_ps": (["_mm_sum_ps"], lambda h: h["_mm_sum_ps"]),
+    "prod_ps": (["_mm_prod_ps"], lambda h: h["_mm_prod_ps"]),
+    "sum_pd": (["_mm_sum_pd"], lambda h: []),
+    "prod_pd": (["_mm_prod_pd"], lambda h: []),
+    "hmax256_ps": (["_mm256_hmax_ps", "_mm_reverse_ps"], lambda h: h["_mm_reverse_ps"] + h["_mm256_hmax_ps"]),
+    "hmin256_ps": (["_mm256_hmin_ps", "_mm_reverse_ps"], lambda h: h["_mm_reverse_ps"] + h["_mm256_hmin_ps"]),
+    "hmax256_pd": (["_mm256_hmax_pd", "_mm256_reverse_pd"], lambda h: h["_mm256_reverse_pd"] + h["_mm256_hmax_pd"]),
+    "hmin256_pd": (["_mm256_hmin_pd", "_mm256_reverse_pd"], lambda h: h["_mm256_reverse_pd"] + h["_mm256_hmin_pd"]),
+    "sum256_ps": (["_mm256_sum_ps", "_mm_sum_ps"], lambda h: h["_mm_sum_ps"] + h["_mm256_sum_ps"][1:2]),
+    "prod256_ps": (["_mm256_prod_ps", "_mm_prod_ps"], lambda h: h["_mm_prod_ps"] + h["_mm256_prod_ps"]),
+    "sum256_pd": (["_mm256_sum_pd"], lambda h: h["_mm256_sum_pd"]),
+    "prod256_pd": (["_mm256_prod_pd"], lambda h: h["_mm256_prod_pd"]),
+}
+
+def hstep_group(isa, ds):
+    got = extract_helpers()
+    calls = []
+    for name, (deps, mk) in HSTEPS.items():
+        if "256" in name and isa in ("sse2", "sse42"):
+            continue
+        st = "ok" if all(got[d]["sha"] == HEXPECT[d][0] for d in deps) else "changed"
+        ims = "theorem" if all(got[d]["imms"] == HEXPECT[d][1] for d in deps) else "changed"
+        try:
+            imm = ",".join(str(v) for v in mk({d: got[d]["imms"] for d in deps}))
+        except Exception:
+            imm = ""
+        calls.append('hs_%s("%s", "%s", "%s", %du);' % (name, imm, st, ims, ds))
+    return {"key": "%s/hstep" % isa, "header": "reduce_hstep.h", "isa": isa, "opt": "-O2", "calls": calls}
+
 def _filtered(fn):
     """developer aid for the mutation self-test: C16_FILTER=<regex on group keys> runs a subset of the same groups"""
     flt = os.environ.get("C16_FILTER")
@@ -191,7 +279,8 @@ def run(tier, seed):
                      "integer-valued data for the exact real-type runs; integer arithmetic wraps",
                      "determinant<LU> / Simple for n>4 only on matrices for which the statically pre-pivoted LU exists (diagonally dominant and their row permutations)",
                      "floating-point error bounds are measured (fbound lines), not proved",
-                     "the real per-ABI horizontal sum/product/minimum/maximum are value-tested lane by lane (hvec lines), not modelled",
+                     "the float/double SSE and AVX horizontal helpers of extintrin.h are modelled (Model/Horizontal.lean) with the shuffle immediates read from the source; "
+                     "the integer, AVX-512 (_mm512_reduce_*) and generic-vector horizontal steps are value-tested lane by lane (hvec lines) only",
                      "seeds read from the source (X1): min -> %s, max -> %s" % (seeds["min"], seeds["max"])],
         rule="symbolic cases: (cfg, sizeof T, kind, n, expression) instantiations of the real sum/product/Tensor::sum/Tensor::product/norm/inner/trace/determinant "
              "templates over the exact polynomial carrier, compared with the Lean model on value, width, ordered vector loads, tail read set, read sets; "
@@ -233,6 +322,9 @@ def sym_call_of(inp):
         else:
             call = "rr::run_detqr_real<%s,%s>(%su);" % (d["T"], d["n"], d["ds"])
         return {"key": "replay", "header": "reduce_real.h", "isa": d["cfg"], "opt": "-O2", "calls": [call]}
+    if cmd == "hstep":
+        return {"key": "replay", "header": "reduce_hstep.h", "isa": d["cfg"], "opt": "-O2",
+                "calls": ['hs_%s("%s", "%s", "%s", %su);' % (d["fn"], d.get("imm", ""), d["struct"], d["imms"], d["ds"])]}
     raise ValueError("cannot rebuild " + inp)
 
 def replay(path):
